@@ -182,6 +182,11 @@ func (g *Geometry) UnmarshalJSON(data []byte) error {
 		}
 		g.Coordinates = mp
 	case "GeometryCollection":
+		for _, sub := range jg.Geometries {
+			if sub == nil {
+				return ErrInvalidGeometry
+			}
+		}
 		g.Geometries = jg.Geometries
 	default:
 		return ErrInvalidGeometry
@@ -245,6 +250,11 @@ func (g *Geometry) UnmarshalBSON(data []byte) error {
 		}
 		g.Coordinates = mp
 	case "GeometryCollection":
+		for _, sub := range bg.Geometries {
+			if sub == nil {
+				return ErrInvalidGeometry
+			}
+		}
 		g.Geometries = bg.Geometries
 	default:
 		return ErrInvalidGeometry
